@@ -204,6 +204,9 @@ func decOrderHelpers(r *Run, rule string) {
 		if f == nil {
 			continue
 		}
+		if alts := P.RetAlternatives(f, 0); len(alts) != 2 {
+			r.Viol(rule, w.fn+"/two-alternatives", P.Pos(f.Pos()), fmt.Sprintf("%s has %d return alternatives (expected 2: one per order)", w.fn, len(alts)))
+		}
 		for i, a := range P.RetAlternatives(f, 0) {
 			lt, _ := HasAtom(a.G, `^\(types\.Dec\)\.LT\(param:d1, param:d2\)$`)
 			want := w.otherwise
